@@ -298,6 +298,12 @@ class Ref:
                 ref = self.slug_of(dict(self.classes[inp['ref_class_path']], pkg_last=self.spec['pkg'].split('.')[-1])) if inp['form'] == 'class' else inp['ref']
                 cands = self._candidates(t['ns'], ref)
                 target = None
+                if inp['form'] == 'class':
+                    # a reference by class names THAT class's task (its full name in the declaring task's namespace), never a namesake of another class
+                    exact = [c for c in cands if self.tasks[c]['slug'] == ref]
+                    if cands and not exact and inp.get('optional'):
+                        raise RefError('dont_care', f'{full}: optional input by class {ref} is absent while namesakes {cands} exist')
+                    cands = exact
                 if len(cands) == 1:
                     target = cands[0]
                 elif len(cands) > 1:
